@@ -1,5 +1,6 @@
 import Fabio.Model.C04F64
 import Fabio.Props.C04
+import Fabio.Lemmas.C04TableG
 /-!
 C04, round 4 — theorems about the arithmetic-parametrised model (`Model/C04F64.lean`), the random picker
 under a uniform source, and the forced hypothesis of `rr_cycle_exact` (the uint64 wrap of the cursor).
@@ -349,6 +350,54 @@ theorem ringAsCoded_exact (ts : List Target) (pl : List (Int × Nat)) :
   rw [weigh_nFixed, weighA_exact, weigh_length]
   rfl
 
+/-! ## every route of every table, as coded, in float64 -/
+
+theorem weighA_ne_nil (A : Arith) (ts : List Target) (h : ts ≠ []) : weighA A ts ≠ [] := by
+  intro h0
+  have hl : (weighA A ts).length = ts.length := by
+    have := congrArg List.length (weighA_keeps_fields A ts)
+    simpa using this
+  rw [h0] at hl
+  exact h (List.eq_nil_of_length_eq_zero hl.symm)
+
+/-- **End to end for the code as coded, in every arithmetic with `rnd 0 = 0` that rounds non-negative numbers
+to non-negative numbers:** for every command script (`route add` / `route del` / `route weight`, any order,
+through `NewTable` or `NewTableCustom`) and every route of the resulting table: the route is not empty, every
+effective weight is `≥ 0`, and the ring `weighTargets` built for it — for every tie order of the sort — has no
+nil slot, holds target `i` exactly `slotCountA A wᵢ` times (once each without fixed weights), holds every
+target with positive weight and no target with weight zero. -/
+theorem every_route_as_coded (A : Arith) (hA : ∀ q, 0 ≤ q → 0 ≤ A.rnd q) (h0 : A.rnd 0 = 0)
+    (env : Env) (defs : List RouteDef) (t : Table) (h : newTableA A env defs = .ok t) :
+    ∀ kv ∈ t, ∀ r ∈ kv.2,
+      r.targets ≠ [] ∧ (∀ tg ∈ r.targets, 0 ≤ tg.weight) ∧
+      ∃ ts, r.targets = weighA A ts ∧
+        ∀ pl : List (Int × Nat), pl.Perm (entries (r.targets.map (fun t => slotCountA A t.weight))) →
+          ∃ ring, ringAsCoded A ts pl = .ok ring ∧ (∀ s ∈ ring, s ≠ none) ∧
+            ∀ i tg, r.targets[i]? = some tg →
+              ring.count (some i) = (if nFixed ts = 0 then 1 else (slotCountA A tg.weight).toNat) ∧
+              (0 < tg.weight → some i ∈ ring) ∧ (tg.weight = 0 → nFixed ts ≠ 0 → some i ∉ ring) := by
+  intro kv hkv r hr
+  obtain ⟨hne, ts, hts⟩ := newTable_okG (Ops.of A) (weighA_ne_nil A) env defs t h kv hkv r hr
+  have hts' : r.targets = weighA A ts := hts
+  refine ⟨hne, ?_, ts, hts', ?_⟩
+  · rw [hts']; exact weighA_nonneg A hA ts
+  · intro pl hperm
+    rw [hts'] at hperm ⊢
+    exact ring_as_coded A hA h0 ts pl hperm
+
+/-- float64 — the instance the Go code is compared with bit for bit -/
+theorem every_route_f64 (env : Env) (defs : List RouteDef) (t : Table)
+    (h : newTableA Arith.f64 env defs = .ok t) :
+    ∀ kv ∈ t, ∀ r ∈ kv.2,
+      r.targets ≠ [] ∧ (∀ tg ∈ r.targets, 0 ≤ tg.weight) ∧
+      ∃ ts, r.targets = weighA Arith.f64 ts ∧
+        ∀ pl : List (Int × Nat), pl.Perm (entries (r.targets.map (fun t => slotCountA Arith.f64 t.weight))) →
+          ∃ ring, ringAsCoded Arith.f64 ts pl = .ok ring ∧ (∀ s ∈ ring, s ≠ none) ∧
+            ∀ i tg, r.targets[i]? = some tg →
+              ring.count (some i) = (if nFixed ts = 0 then 1 else (slotCountA Arith.f64 tg.weight).toNat) ∧
+              (0 < tg.weight → some i ∈ ring) ∧ (tg.weight = 0 → nFixed ts ≠ 0 → some i ∉ ring) :=
+  every_route_as_coded Arith.f64 f64_rounds_nonneg f64_rounds_zero env defs t h
+
 /-! ## the random picker under a uniform source -/
 
 theorem count_eq_countP_range (l : Ring) (a : Option Nat) :
@@ -490,6 +539,11 @@ example : spreadW Arith.f64 (roundF64 (1/10000)) 10 = roundF64 (1/100000) ∧
 /-- 0.9 and 0.00001 in float64: the small target still gets its guaranteed slot -/
 example : (weighA Arith.f64 [tg (roundF64 (9/10)), tg (roundF64 (1/100000))]).map (fun t => slotCountA Arith.f64 t.weight)
     = [9999, 1] := by decide +kernel
+/-- a float64 table that exists: one route, two targets -/
+example : (match newTableA Arith.f64 ⟨fun s => some s, fun _ => true⟩
+    [{ cmd := .add, src := ['/'], dst := ['a'], weight := roundF64 (1/10) }, { cmd := .add, src := ['/'], dst := ['b'] }] with
+    | .ok t => t.map (fun kv => kv.2.map (fun r => r.targets.map (·.weight)))
+    | .error _ => []) = [[[roundF64 (1/10), roundF64 (1 - roundF64 (1/10))]]] := by decide +kernel
 example : f64_rounds_nonneg (1/3) (by decide +kernel) = f64_rounds_nonneg (1/3) (by decide +kernel) := rfl
 /-- ring 0 1 0 (two slots for target 0): two of the three RNG values select target 0 -/
 example : (List.range 3).countP (fun (k : Nat) => decide (rndPick [some 0, some 1, some 0] (fun _ => (k : Int)) = .ok (some 0))) = 2 := by
